@@ -83,4 +83,17 @@ def crashAfter (k : Nat) (ops : List FsOp) : List FsOp := ops.take k
 /-- the complete serialization -/
 def full (chunks : List Bytes) : Bytes := chunks.flatten
 
+/-! ### two calls of one callback object at the same time (two records, two destinations)
+
+Each call owns its temporary file, its handle and its destination: the state is a pair of file systems and
+every operation is tagged with the call it belongs to. -/
+
+def apply2 (s : Fs × Fs) (o : Bool × FsOp) : Fs × Fs :=
+  if o.1 then (s.1, apply s.2 o.2) else (apply s.1 o.2, s.2)
+
+def applyAll2 (s : Fs × Fs) (ops : List (Bool × FsOp)) : Fs × Fs := ops.foldl apply2 s
+
+/-- the operations of one of the two calls, in order -/
+def opsOf (b : Bool) (ops : List (Bool × FsOp)) : List FsOp := (ops.filter (·.1 == b)).map (·.2)
+
 end OpenHTF.AtomicFile
